@@ -95,7 +95,8 @@ def _tg_cancel_ens(c):
             ),
             patterns=[task_state(c.post, x), closure(c.pre, g, task, x), c.post.rd(x, TASK, "_cancellation_time")[1]],
         ),
-        closure(c.pre, g, task, task),
+        # (TaskGraph.cancel#body: the task itself is reported unless it already was CANCELLED)
+        z3.Implies(task_state(c.pre, task) != CANCELLED, closure(c.pre, g, task, task)),
     )
 
 
